@@ -109,7 +109,7 @@ func TestC03Layout(t *testing.T) {
 		}
 	}
 	rec.Exhaustive(fmt.Sprintf("CRC_EXTRA, base size and id of all %d distinct message types (shipped + %d user structs); %d of them pinned to published values", len(tys), len(Users), nGolden))
-	perType := evid.N(100, 400)
+	perType := evid.N(200, 600)
 	evid.Check(t, rec, len(tys)*perType, func(t *rapid.T) {
 		ti := tys[rapid.IntRange(0, len(tys)-1).Draw(t, "type")]
 		v2 := rapid.Bool().Draw(t, "v2")
